@@ -267,7 +267,10 @@ func (p IndexVectorFlatParameters) Validate() error {
 		return fmt.Errorf("haversine distance metric requires vector size 2 got %d", p.VectorSize)
 	}
 	if p.Quantizer != nil {
-		return p.Quantizer.Validate()
+		if err := p.Quantizer.Validate(); err != nil {
+			return err
+		}
+		return p.Quantizer.ValidateFor(p.VectorSize, p.DistanceMetric)
 	}
 	return nil
 }
@@ -306,7 +309,10 @@ func (p IndexVectorVamanaParameters) Validate() error {
 		return fmt.Errorf("alpha must be between 1.1 and 1.5, got %f", p.Alpha)
 	}
 	if p.Quantizer != nil {
-		return p.Quantizer.Validate()
+		if err := p.Quantizer.Validate(); err != nil {
+			return err
+		}
+		return p.Quantizer.ValidateFor(p.VectorSize, p.DistanceMetric)
 	}
 	return nil
 
